@@ -22,7 +22,7 @@ RULE = ('seeded schedules as in C09 with the trajectory sampling in place of the
         ' Round 4: the two sensor triads configured independently (scale / misalignment on one of them only, one triad without a model); records of 2..4 rows.')
 ASSUMPTIONS = ['termination is decided as bounded progress: while-header visits <= 2 (rows + epochs in span) + 4, never by wall clock',
                'stamping of innovation rows with the sample time is not demanded by C10 (the filter stamps them with the row time)']
-REQUIRED_OBS = ['reruns_with_same_objects', 'schedules_with_permuted_tables', 'schedules_with_tiny_record', 'schedules_with_independent_triad_models', 'runs_completed', 'loop_iterations', 'hit_events', 'correct_events', 'schedules_with_clusters', 'schedules_with_gaps',
+REQUIRED_OBS = ['reruns_with_same_objects', 'schedules_with_permuted_tables', 'schedules_with_tiny_record', 'trajectories_with_different_index_names', 'schedules_with_unsorted_measurement_rows', 'schedules_with_independent_triad_models', 'runs_completed', 'loop_iterations', 'hit_events', 'correct_events', 'schedules_with_clusters', 'schedules_with_gaps',
                 'schedules_without_measurements', 'time_step_below_sampling', 'time_step_equal_sampling', 'with_increments',
                 'offline_checks']
 REQUIRED_CLASSES = {'all': ['uniform', 'jitter', 'gaps']}
@@ -77,7 +77,11 @@ def run_filter(S, loop, with_increments):
         am = inertial_sensor.EstimationModel(bias_sd=1e-2, bias_walk=1e-4)
     events.start()
     try:
-        r = filters.run_feedforward_filter(S['traj'], computed_trajectory(S), 5, 1, 0.5, 1.0, gm, am,
+        comp_ = computed_trajectory(S)
+        if S.get('index_names_differ'):
+            # equally indexed tables from different sources: the same stamps under another index name
+            comp_ = comp_.set_axis(comp_.index.rename(S['index_names_differ'] if S['index_names_differ'] != 'None' else None))
+        r = filters.run_feedforward_filter(S['traj'], comp_, 5, 1, 0.5, 1.0, gm, am,
                                            measurements=S['measurements'], increments=inc, time_step=S['time_step'],
                                            with_altitude=S['with_altitude'])
         return r, events.stop(), None
@@ -91,6 +95,8 @@ def run_filter(S, loop, with_increments):
 
 def run_case(case):
     S = schedules.build(case['seed'], for_feedforward=True)
+    if case['seed'] % 4 == 1:
+        S['index_names_differ'] = ['None', 't', 'gps_time'][case['seed'] % 3]
     loop = LOOP['m']
     d = S['describe']
     rng = np.random.Generator(np.random.PCG64(case['seed'] + 31))
@@ -107,6 +113,8 @@ def run_case(case):
     obs['correct_events'] = sum(e['kind'] == 'correct' for e in ev)
     obs['process_matrix_events'] = sum(e['kind'] == 'process_matrices' for e in ev)
     obs['schedules_with_independent_triad_models'] = int(bool(d.get('mixed_models')))
+    obs['schedules_with_unsorted_measurement_rows'] = int(bool(d.get('rows_unsorted')))
+    obs['trajectories_with_different_index_names'] = int(bool(S.get('index_names_differ')))
     obs['schedules_with_tiny_record'] = int(bool(d.get('tiny_record')))
     obs['schedules_with_permuted_tables'] = int(bool(d.get('tables_permuted')))
     obs['schedules_with_clusters'] = int(d['max_epochs_in_one_interval'] >= 2)
